@@ -130,6 +130,7 @@ func txImpl(line string) string {
 	ctx := context.Background()
 
 	var outs []string
+	var sharedPkg *tds.TokenlessPackage
 	// oracle state: messages = list of (payload bytes, wire bytes, psize, hdrtype, chan, first nr)
 	verdict := ""
 	var msgPayload, msgWire []byte
@@ -162,7 +163,14 @@ func txImpl(line string) string {
 			if !ok {
 				return "bad-op"
 			}
-			pkg := tds.NewTokenlessPackage()
+			// one package object for the whole line, its buffer reset and refilled for every package (an
+			// application building its packages in one buffer): what was queued must not change when the
+			// caller reuses its memory
+			if sharedPkg == nil {
+				sharedPkg = tds.NewTokenlessPackage()
+			}
+			pkg := sharedPkg
+			pkg.Data.Reset()
 			pkg.Data.Write(pl)
 			msgPayload = append(msgPayload, pl...)
 			if f[0] == "q" {
